@@ -21,7 +21,7 @@ SECOND_LEVEL = ["ContainerPackHeader", "ContentPackHeader", "DirectoryPackHeader
 def r1_header_offset(cx):
     F = cx.F
     want = ref.REF["sizes"]["PackHeader.block"]
-    for f in F.fns:
+    for f in F.live_fns:
         if "blocks" not in f:
             continue
         b = None
